@@ -469,6 +469,8 @@ def check_fault(case):
     elif fault == "bad_cell_save":
         if not numeric_cols:
             raise Skip("no numeric column")
+        if case["junk"] == schema["missing"]:
+            raise Skip("junk equals the missing marker")
         i = numeric_cols[k % len(numeric_cols)]
         col = list(data[i])
         col[k % len(col)] = case["junk"]
